@@ -265,6 +265,8 @@ func checkC01(w *World, r *Report) {
 	importRules(w, r, checkC02, "C02", "C01.R5", func(o *Obligation) bool { return o.Rule == "C02.R2" || o.Rule == "C02.R3" || o.Rule == "C02.R1" || o.Rule == "C02.R7" })
 	// the PID a sender holds keeps naming the live actor: a refused duplicate spawn does not take over its registry entry
 	checkRegistryAdd(w, r, "C01.R5", a)
+	// ... and the lookup answers from the table, never from an earlier answer (a stopped process, or a hidden successor)
+	checkRegistryAnswers(w, r, "C01.R5", a)
 	// what stands between the inbox and Receive is the actor's own middleware chain, not another actor's (C13.R4)
 	checkDefaultOptsFresh(w, r, "C01.R5")
 	// across a crash: the unprocessed rest of the batch is buffered from the cursor, unconditionally, and replayed first
@@ -553,6 +555,8 @@ func checkC09(w *World, r *Report) {
 		r.Check(len(odd) == 0 && n > 0, "C09.R2", fname(a.eSendLocal)+":callers", "SendLocal (no nil test, no address test) is entered only from the dispatcher, the pill sender and the remote's inbound reader", w.fnPos(a.eSendLocal),
 			"also called by "+strings.Join(odd, "; ")+": a nil or foreign PID reaches the registry lookup and is reported as a dead letter (or delivered to a local actor of the same id) instead of EngineRemoteMissingEvent")
 	}
+	// a message for an id that is no longer registered must see "not found" (the dead-letter branch)
+	checkRegistryAnswers(w, r, "C09.R2", a)
 	// R3: exported API with *PID parameters
 	pidT := w.Named("actor", "PID")
 	api := map[string][]string{
@@ -804,6 +808,7 @@ func checkC10(w *World, r *Report) {
 		}
 		r.Check(okG, "C10.R5", fname(a.regGet)+":looks-up-pid.ID", "get looks the process up by pid.ID", w.fnPos(a.regGet), "get does not look up lookup[pid.ID]")
 	}
+	checkRegistryAnswers(w, r, "C10.R5", a)
 	checkOptionStores(w, r, "C10.R5", "WithID", "ID", "FV:id")
 	{
 		spawn := w.Method("actor", "Engine", "Spawn")
@@ -2026,4 +2031,58 @@ func isPIDPtr(t types.Type) bool {
 	}
 	n, _ := pt.Elem().(*types.Named)
 	return n != nil && n.Obj().Name() == "PID"
+}
+
+// checkRegistryAnswers: the registry has one source of truth. Whatever get / getByID return is nil or the entry the
+// table holds under the asked id in this very call (read under the lock, C10.R1) - never a value remembered from an
+// earlier call (a lookaside cache keeps answering with a process that was removed, or hides its successor).
+func checkRegistryAnswers(w *World, r *Report, rule string, a *sendAnchors) {
+	type fk struct {
+		fn  *ssa.Function
+		key string
+	}
+	var fns []fk
+	if a.regGet != nil {
+		fns = append(fns, fk{a.regGet, "P1.ID"})
+	}
+	if a.regGetByID != nil {
+		fns = append(fns, fk{a.regGetByID, "P1"})
+	}
+	for _, f := range fns {
+		g := w.FGI(f.fn)
+		okA, where := true, ""
+		n := 0
+		accept := func(p string) bool {
+			switch p {
+			case "K:nil", "P0.lookup[" + f.key + "]", "P0.lookup[" + f.key + "]#0":
+				return true
+			}
+			if a.regGetByID != nil && f.fn != a.regGetByID && p == "call:"+fname(a.regGetByID)+"(P0,"+f.key+")" {
+				return true
+			}
+			return false
+		}
+		for _, rc := range g.retCases() {
+			if len(rc.res) != 1 {
+				continue
+			}
+			n++
+			p := w.pathOf(rc.res[0])
+			alts := []string{p}
+			if strings.HasPrefix(p, "phi(") && strings.HasSuffix(p, ")") {
+				alts = splitTop(p[4:len(p)-1], '|')
+			}
+			for _, alt := range alts {
+				if !accept(alt) {
+					okA, where = false, w.pos(g.ins[rc.x].Pos())+" returns "+alt
+				}
+			}
+		}
+		if n == 0 {
+			r.Unknown(rule, fname(f.fn)+":answers-from-the-table", "the lookup function returns a process", w.fnPos(f.fn), "no return found")
+			continue
+		}
+		r.Check(okA, rule, fname(f.fn)+":answers-from-the-table", "every answer is nil or the entry the table holds under the asked id in this call", w.fnPos(f.fn),
+			where+": not read from the table in this call. A remembered answer outlives Remove (messages go to a stopped process and are never dead-lettered) and hides a successor that took the id")
+	}
 }
